@@ -81,13 +81,20 @@ def printedName (m : List (String × SysId)) (id : SysId) : String :=
   | some p => sanitise p.1
   | none => sanitise s!"unnamed_system_{id}"
 
-/-- `write_par_seq` (stage.rs l.220-248) -/
-def writeParSeq (b : DispatcherBuilder) : String :=
-  let group (g : List SysId) : String :=
-    "\t\tseq![\n" ++ String.join (g.map fun id => "\t\t\t" ++ printedName b.map id ++ ",\n") ++ "\t\t],\n"
-  let stage (st : List (List SysId)) : String :=
+/-- the names `write_par_seq` walks over: stage ↦ group ↦ position ↦ printed name of the id there -/
+def printTree (b : DispatcherBuilder) : List (List (List String)) :=
+  b.stagesBuilder.ids.map fun st => st.map fun g => g.map (printedName b.map)
+
+/-- the text `write_par_seq` emits for that walk, `writeln!` by `writeln!` (stage.rs l.220-248) -/
+def render (t : List (List (List String))) : String :=
+  let group (g : List String) : String :=
+    "\t\tseq![\n" ++ String.join (g.map fun n => "\t\t\t" ++ n ++ ",\n") ++ "\t\t],\n"
+  let stage (st : List (List String)) : String :=
     "\tpar![\n" ++ String.join (st.map group) ++ "\t],\n"
-  "seq![\n" ++ String.join (b.stagesBuilder.ids.map stage) ++ "]\n"
+  "seq![\n" ++ String.join (t.map stage) ++ "]\n"
+
+/-- `write_par_seq` -/
+def writeParSeq (b : DispatcherBuilder) : String := render b.printTree
 
 /-- `max_threads` of the built dispatcher -/
 def maxThreads (b : DispatcherBuilder) : Nat :=
